@@ -380,7 +380,7 @@ silent('s-recovery-tokenize-alias', ['C07'], '_recovery_tokenize without the loc
        (PYPARSER, "                o = self._omit_dedent_list\n                if o and o[-1] == self._indent_counter:\n                    o.pop()", "                if self._omit_dedent_list and self._omit_dedent_list[-1] == self._indent_counter:\n                    self._omit_dedent_list.pop()"))
 silent('s-tokenize-endpos', ['C01', 'C09', 'C02'], 'epilogue computes end_pos inline',
        (TOK, "    end_pos = lnum, max_\n", "    end_pos = (lnum, max_)\n"))
-silent('s-tokenize-indent-order', ['C09'], 'push on the indentation stack before yielding INDENT',
+fire('tokenize-indent-order', ['C09', 'C04'], ['TOK-4'], 'push on the indentation stack before yielding INDENT: the incremental parser looks at len(indents) when the token after a NEWLINE arrives (was listed as harmless; 10 diff-parser tests fail with it)',
        (TOK, "                        yield PythonToken(INDENT, '', spos, '')\n                        indents.append(indent_start)", "                        indents.append(indent_start)\n                        yield PythonToken(INDENT, '', spos, '')"))
 silent('s-tokenize-whitespace-class-order', ['C09', 'C10', 'C01'], 'character class written in another order',
        (TOK, "    Whitespace = r'[ \\f\\t]*'", "    Whitespace = r'[\\t\\f ]*'"))
@@ -656,5 +656,59 @@ fire('diff2-stale-last-node', ['C04'], ['DIFF-2'], 'the newline question is aske
 silent('diff2-operands-swapped-fresh-alias', ['C04'], 'the question is asked through a local bound after the removals, flag tested first',
        (DIFF, "            if not _ends_with_newline(new_nodes[-1].get_last_leaf()) and not had_valid_suite_last:\n                p = new_nodes[-1].get_next_leaf().prefix",
         "            final_node = new_nodes[-1]\n            if not had_valid_suite_last and not _ends_with_newline(final_node.get_last_leaf()):\n                p = final_node.get_next_leaf().prefix"))
+
+fire('tok11-no-store-in-finder', ['C03'], ['TOK-11'], 'the start of f-string text is only remembered at the opening quote (rt8-C03, reduced)',
+     (TOK, "    if not tos.previous_lines:\n        tos.last_string_start_pos = (lnum, pos)\n\n", "\n"),
+     (TOK, "                fstring_stack.append(FStringNode(fstring_pattern_map[token]))", "                fstring_stack.append(FStringNode(fstring_pattern_map[token]))\n                fstring_stack[-1].last_string_start_pos = (lnum, pos)"))
+fire('tok11-store-only-when-carried', ['C03'], ['TOK-11'], 'the store is made when text was carried over, not when it was not',
+     (TOK, "    if not tos.previous_lines:\n        tos.last_string_start_pos = (lnum, pos)", "    if tos.previous_lines:\n        tos.last_string_start_pos = (lnum, pos)"))
+fire('tok11-store-after-advance', ['C03'], ['TOK-11'], 'the stored column is the position after the text',
+     (TOK, "    if not tos.previous_lines:\n        tos.last_string_start_pos = (lnum, pos)\n", ""),
+     (TOK, "    new_pos += len(string)\n", "    new_pos += len(string)\n    if not tos.previous_lines:\n        tos.last_string_start_pos = (lnum, new_pos)\n"))
+silent('tok11-guard-spelled-as-comparison', ['C03'], 'the carried-text test written as a comparison with the empty string, store moved below the group() call',
+       (TOK, "    if not tos.previous_lines:\n        tos.last_string_start_pos = (lnum, pos)\n\n    string = match.group(0)\n", "    string = match.group(0)\n    if tos.previous_lines == '':\n        tos.last_string_start_pos = (lnum, pos)\n"))
+
+fire('tree8-fstring-string-fast-end-pos', ['C03', 'C11'], ['TREE-8'], 'the three f-string part leaves get the single-line end_pos (wrong for fstring_string, whose text spans lines) (rt9-C11)',
+     (PYTREE, "class FStringString(PythonLeaf):", "class FStringString(_LeafWithoutNewlines):"),
+     (PYTREE, "class FStringStart(PythonLeaf):", "class FStringStart(_LeafWithoutNewlines):"),
+     (PYTREE, "class FStringEnd(PythonLeaf):", "class FStringEnd(_LeafWithoutNewlines):"))
+silent('tree8-fstring-delimiters-fast-end-pos', ['C03', 'C11'], 'f-string start / end leaves (a prefix + quote, a quote) get the single-line end_pos',
+       (PYTREE, "class FStringStart(PythonLeaf):", "class FStringStart(_LeafWithoutNewlines):"),
+       (PYTREE, "class FStringEnd(PythonLeaf):", "class FStringEnd(_LeafWithoutNewlines):"))
+
+fire('rx12-bom-anywhere-in-prefix', ['C03', 'C09'], ['RX-12'], 'a prefix that contains U+FEFF anywhere is treated as starting with a zero-width BOM (rt9-C09, reduced)',
+     (PYTREE, "from parso.python.prefix import split_prefix", "from parso.python.prefix import split_prefix, unicode_bom"),
+     (PYTREE, "        previous_leaf = self.get_previous_leaf()\n", "        if unicode_bom in self.prefix and '\\n' not in self.prefix:\n            return self.line, self.column - len(self.prefix) + 1\n        previous_leaf = self.get_previous_leaf()\n"))
+fire('rx12-bom-found-in-first-line', ['C03', 'C09'], ['RX-12'], 'the tokenizer looks for the BOM anywhere in the first line',
+     (TOK, "            if line.startswith(BOM_UTF8_STRING):", "            if BOM_UTF8_STRING in line:"))
+silent('rx12-bom-first-character-slice', ['C03', 'C09'], 'the BOM test written as a comparison of the first character',
+       (TOK, "            if line.startswith(BOM_UTF8_STRING):", "            if line[:1] == BOM_UTF8_STRING:"))
+
+_W_OLD = "    with open(_get_hashed_path(hashed_grammar, path, cache_path=cache_path), 'wb') as f:\n        pickle.dump(item, f, pickle.HIGHEST_PROTOCOL)\n"
+fire('cache4-temp-shared-by-entries', ['C16', 'C17'], ['CACHE-4'], 'atomic write through <dir>/<grammar hash>-<pid>.tmp: the temporary does not depend on the source path (rt9-C16)',
+     (CACHE, _W_OLD, "    pickle_path = _get_hashed_path(hashed_grammar, path, cache_path=cache_path)\n    scratch_path = os.path.join(os.path.dirname(pickle_path), '%s-%s.tmp' % (hashed_grammar, os.getpid()))\n    with open(scratch_path, 'wb') as f:\n        pickle.dump(item, f, pickle.HIGHEST_PROTOCOL)\n    os.replace(scratch_path, pickle_path)\n"))
+silent('s-cache4-temp-named-after-pickle', ['C16', 'C17'], 'atomic write through <pickle path>.<pid>.tmp',
+       (CACHE, _W_OLD, "    pickle_path = _get_hashed_path(hashed_grammar, path, cache_path=cache_path)\n    scratch_path = '%s.%d.tmp' % (pickle_path, os.getpid())\n    with open(scratch_path, 'wb') as f:\n        pickle.dump(item, f, pickle.HIGHEST_PROTOCOL)\n    os.replace(scratch_path, pickle_path)\n"))
+fire('cache8-mmap-reader', ['C17'], ['CACHE-8'], 'the reader unpickles from a memory mapping of the cache file (rt9-C17)',
+     (CACHE, "import gc\n", "import gc\nimport mmap\n"),
+     (CACHE, "                module_cache_item = pickle.load(f)", "                with mmap.mmap(f.fileno(), 0, access=mmap.ACCESS_READ) as data:\n                    module_cache_item = pickle.loads(data)"))
+
+fire('exc3-value-error-handler-dropped', ['C13'], ['EXC-3'], 'the escape check only catches UnicodeDecodeError (a lone surrogate raises UnicodeEncodeError; bytes escapes raise ValueError) (rt9-C13, reduced)',
+     (ERRORS, "            except ValueError as e:\n                self.add_issue(leaf, message='(value error) ' + str(e))\n", ""))
+silent('s-exc3-unicode-error-handler', ['C13'], 'the first handler names the common base class UnicodeError',
+       (ERRORS, "            except UnicodeDecodeError as e:\n                self.add_issue(leaf, message='(unicode error) ' + str(e))", "            except UnicodeError as e:\n                self.add_issue(leaf, message='(unicode error) ' + str(e))"))
+
+fire('norm13-prefix-start-from-visitor-state', ['C20', 'C13', 'C09'], ['NORM-13'], 'the PEP 8 visitor splits a prefix from the end of the leaf it visited last (differs from the tree after an error node) (rt9-C20)',
+     (PEP8, "from parso.normalizer import Rule\n", "from parso.normalizer import Rule\nfrom parso.python.prefix import split_prefix\n"),
+     (PEP8, "        for part in leaf._split_prefix():\n            if part.type == 'spacing':", "        previous = self._previous_leaf\n        parts = leaf._split_prefix() if previous is None or previous.type == 'error_leaf' else split_prefix(leaf, previous.end_pos)\n        for part in parts:\n            if part.type == 'spacing':"))
+silent('s-norm13-start-through-local', ['C20', 'C13', 'C09'], 'the start position is computed into a local first',
+       (PYTREE, "        return split_prefix(self, self.get_start_pos_of_prefix())", "        start = self.get_start_pos_of_prefix()\n        return split_prefix(self, start)"))
+
+fire('tok12-format-spec-colon-rewind-by-zero', ['C01', 'C09'], ['TOK-12'], 'after `token = \':\'` the scan position is rewound by len(token) - 1 = 0: the `=` of `:=` is lost (rt9-C01)',
+     (TOK, "                    token = ':'\n                    pos = start + 1\n", "                    token = ':'\n                    pos -= len(token) - 1\n"))
+fire('tok12-error-char-without-reposition', ['C01', 'C09'], ['TOK-12'], 'the `#` inside an f-string expression is emitted as a one-character error token, the scan continues behind the whole comment',
+     (TOK, "                    yield PythonToken(ERRORTOKEN, initial, spos, prefix)\n                    pos = start + 1\n", "                    yield PythonToken(ERRORTOKEN, initial, spos, prefix)\n"))
+silent('s-tok12-reposition-by-length', ['C01', 'C09'], 'the format-spec colon repositions with start + len(token)',
+       (TOK, "                    token = ':'\n                    pos = start + 1\n", "                    token = ':'\n                    pos = start + len(token)\n"))
 
 VARIANTS = [v for v in VARIANTS if v is not None]
